@@ -10,3 +10,17 @@ package packagerender
 
 //@ func package-operator.run/internal/packages/internal/packagerender.parseObjects
 //@   at Unmarshal#1 assert [C13] len(obj.Object) == 0
+
+// The order of the rendered objects is fixed by sorting the file paths and appending each file's documents in document
+// order. What is sorted are the keys of a map, hence pairwise distinct: the (unstable) sort cannot reorder equal keys,
+// and the result does not depend on the iteration order of the map.
+//@ func package-operator.run/internal/packages/internal/packagerender.RenderObjectsWithFilter
+//@   at sort.Slice#1 assert [C13] hastype("[]string", arg0) && len(asstruct("[]string", arg0)) == len(pathObjectMap)
+//@   at sort.Slice#1 assert [C13] forall a int, b int :: 0 <= a && a < b && b < len(asstruct("[]string", arg0)) ==> asstruct("[]string", arg0)[a] != asstruct("[]string", arg0)[b]
+// (the keys are collected either by index into a pre-sized slice or by appending; the invariants are offered for both)
+//@   loop 1 invariant? [C13] 0 <= idx && idx == visitedcount() && idx <= len(paths) && len(paths) == len(pathObjectMap)
+//@   loop 1 invariant? [C13] forall a int :: 0 <= a && a < idx ==> visited(paths[a])
+//@   loop 1 invariant? [C13] forall a int, b int :: 0 <= a && a < b && b < idx ==> paths[a] != paths[b]
+//@   loop 1 invariant? [C13] len(paths) == visitedcount()
+//@   loop 1 invariant? [C13] forall a int :: 0 <= a && a < len(paths) ==> visited(paths[a])
+//@   loop 1 invariant? [C13] forall a int, b int :: 0 <= a && a < b && b < len(paths) ==> paths[a] != paths[b]
